@@ -148,6 +148,7 @@ func runC05(c *runCtx) {
 	c05Directed(c)
 	c05Rebuild(c)
 	c05CLI(c)
+	c06Clocks(c, "C05") // every crash point of a clock write: the clock never goes back
 }
 
 // c05Directed: the interleaving in which a replica fast-forwards onto a merge commit made by
@@ -212,6 +213,21 @@ func c05Rebuild(c *runCtx) {
 				panic(err)
 			}
 			last = b
+		}
+		// the highest edit times sit on later commits of the bugs, not on their roots
+		{
+			ids0, _ := bug.ListLocalIds(repo)
+			for round := 0; round < 2; round++ {
+				for _, id := range ids0 {
+					if bb, err := bug.Read(repo, id); err == nil {
+						op, _, _ := newOpGenWith(c.rng.fork(), authors, bb).next()
+						bb.Append(op)
+						if err := bb.Commit(repo); err != nil {
+							panic(err)
+						}
+					}
+				}
+			}
 		}
 		var maxEdit, maxCreate uint64
 		ids, _ := bug.ListLocalIds(repo)
